@@ -43,6 +43,7 @@ type harnessFile struct {
 	stubs    map[string]string
 	sums     []string
 	dropgo   []string
+	includes []string // other harness-tree files overlaid into the same directory (helpers)
 	extra    map[string]string // additional overlay: repo-relative target -> repo-relative source (current tree)
 	replayFn map[string]string
 	bounds   []string
@@ -79,6 +80,8 @@ func parseHarness(path string) (*harnessFile, error) {
 			h.sums = append(h.sums, arg)
 		case "dropgo":
 			h.dropgo = append(h.dropgo, arg)
+		case "include":
+			h.includes = append(h.includes, arg)
 		case "overlay":
 			parts := strings.SplitN(arg, "<-", 2)
 			if len(parts) != 2 {
@@ -310,6 +313,12 @@ func run(id, tier, repo, verif, only string, workers int, trace, noReplay bool, 
 		tgt := filepath.Join(repo, h.dir, "zz_verif_"+filepath.Base(h.path))
 		if err := addOverlay(tgt, h.path); err != nil {
 			return fail("%v", err)
+		}
+		for _, inc := range h.includes {
+			src := filepath.Join(verif, "harness", inc)
+			if err := addOverlay(filepath.Join(repo, h.dir, "zz_verif_"+filepath.Base(inc)), src); err != nil {
+				return fail("include %s: %v", inc, err)
+			}
 		}
 		for t, s := range h.extra {
 			if err := addOverlay(filepath.Join(repo, t), filepath.Join(repo, s)); err != nil {
